@@ -29,7 +29,7 @@ ASSUMPTIONS = ["intersection documents use unique-id leaves (membership of boole
 
 def plan(tier, seed):
     n = 14 if tier == "quick" else 46
-    return [{"n": 450 if tier == "quick" else 2500} for _ in range(n)]
+    return [{"n": 450 if tier == "quick" else 5000} for _ in range(n)]
 
 
 def recs(ms):
